@@ -120,6 +120,8 @@ const FAMS: &[&[&str]] = &[
 	&["alpha", "alpah", "alhpa", "aplha", "alph"],
 	&["x1", "x2", "y1", "y2", "x"],
 	&["value", "values", "valued", "valve", "valu"],
+	// equal scores against the near misses: the ranking is decided by the tie-break alone
+	&["ab1", "ab3", "ab4", "ab5", "ab6", "ab"],
 ];
 const UFAMS: &[&[&str]] = &[&["é1", "é2", "é3", "é4", "é"], &["ключ1", "ключ2", "ключ3", "ключ"]];
 
@@ -312,17 +314,33 @@ fn gen_locals_prog(rng: &mut Rng) -> (String, Vec<Vec<String>>, String) {
 	let mut pool: Vec<&str> = fam.to_vec();
 	shuffle(rng, &mut pool);
 	let target = near_miss(rng, fam);
-	let nl = 1 + rng.below(3);
+	// shadowing: one or two names are bound again in inner scopes (each scope is a hash map of its
+	// own, so the candidate list holds the name once per scope that binds it)
+	let shadow = rng.chance(1, 2);
+	let nshadow = if shadow { 1 + rng.below(2) } else { 0 };
+	let shadowed: Vec<&str> = pool.drain(..nshadow.min(pool.len().saturating_sub(1))).collect();
+	let nl = if shadow { 2 + rng.below(3) } else { 1 + rng.below(3) };
 	let mut layers: Vec<Vec<String>> = Vec::new();
 	let mut text = String::new();
 	let mut closers = String::new();
 	let mut it = pool.into_iter();
 	for li in 0..nl {
-		let k = 1 + rng.below(3);
-		let names: Vec<String> = it.by_ref().take(k).map(str::to_string).collect();
+		let k = if shadow { rng.below(3) } else { 1 + rng.below(3) };
+		let mut names: Vec<String> = Vec::new();
+		for (si, sname) in shadowed.iter().enumerate() {
+			// the first shadowed name is bound in the two outermost scopes at least
+			if (si == 0 && li < 2) || rng.chance(2, 3) {
+				names.push((*sname).to_string());
+			}
+		}
+		names.extend(it.by_ref().take(k).map(str::to_string));
 		if names.is_empty() {
+			if shadow {
+				continue;
+			}
 			break;
 		}
+		shuffle(rng, &mut names);
 		if li % 2 == 1 && rng.chance(1, 2) {
 			// a function layer
 			text.push_str(&format!("(function({}) ", names.join(", ")));
@@ -335,13 +353,215 @@ fn gen_locals_prog(rng: &mut Rng) -> (String, Vec<Vec<String>>, String) {
 		}
 		layers.insert(0, names);
 	}
-	text.push_str(&target);
+	// the place of the reference does not add a scope of bindings
+	let body = match rng.below(6) {
+		0 => format!("{{ x: {target} }}.x"),
+		1 => format!("[{target}][0]"),
+		2 => format!("(if true then {target} else 0)"),
+		_ => target.clone(),
+	};
+	text.push_str(&body);
 	text.push_str(&closers);
 	(text, layers, target)
 }
 
+// ---------------------------------------------------------------------------------------------
+// error texts that are assembled by iterating hash maps (observation: byte-identical in every
+// process and after every interning history)
+
+const STD_NAMES: &[&str] = &[
+	"length", "objectFields", "objectFieldsAll", "objectHas", "objectHasAll", "objectValues", "objectValuesAll",
+	"objectKeysValues", "setUnion", "setInter", "setDiff", "setMember", "manifestJsonEx", "manifestJsonMinified",
+	"manifestYamlDoc", "manifestTomlEx", "asciiUpper", "asciiLower", "filterMap", "flatMap", "startsWith", "endsWith",
+	"parseInt", "parseOctal", "parseHex", "parseJson", "parseYaml", "base64", "base64Decode", "base64DecodeBytes",
+	"min", "max", "minArray", "maxArray", "isString", "isNumber", "isObject", "isArray", "stripChars", "lstripChars",
+	"rstripChars", "strReplace", "splitLimit", "splitLimitR", "mapWithIndex", "mapWithKey", "foldl", "foldr",
+];
+
+/// a misspelling of `name` (drop / double / swap / replace one character, change one case, append)
+fn misspell(rng: &mut Rng, name: &str) -> String {
+	let cs: Vec<char> = name.chars().collect();
+	let i = rng.below(cs.len());
+	let mut out: Vec<char> = cs.clone();
+	match rng.below(6) {
+		0 if cs.len() > 2 => {
+			out.remove(i);
+		}
+		1 => out.insert(i, cs[i]),
+		2 if cs.len() > 1 => {
+			let j = i.min(cs.len() - 2);
+			out.swap(j, j + 1);
+		}
+		3 => out[i] = if cs[i] == 'q' { 'z' } else { 'q' },
+		4 => {
+			out[i] = if cs[i].is_ascii_uppercase() { cs[i].to_ascii_lowercase() } else { cs[i].to_ascii_uppercase() };
+		}
+		_ => out.push(*rng.pick(&['s', '2', '_', 'x'])),
+	}
+	let m: String = out.into_iter().collect();
+	if m == name {
+		format!("{name}_")
+	} else {
+		m
+	}
+}
+
+/// an undefined local below 2-4 scopes of every kind that binds names (`local`, function parameters,
+/// object locals, comprehension variables), with names shadowed across the scopes
+fn gen_shadow_scopes(rng: &mut Rng) -> String {
+	let fam = FAMS[rng.below(FAMS.len())];
+	let mut pool: Vec<&str> = fam.to_vec();
+	shuffle(rng, &mut pool);
+	let target = near_miss(rng, fam);
+	let nshadow = 1 + rng.below(2);
+	let shadowed: Vec<&str> = pool.drain(..nshadow).collect();
+	let nl = 2 + rng.below(3);
+	let mut text = String::new();
+	let mut closers = String::new();
+	let mut fresh = pool.into_iter().cycle();
+	for li in 0..nl {
+		let mut names: Vec<String> = Vec::new();
+		for (si, sname) in shadowed.iter().enumerate() {
+			if si == 0 || rng.chance(2, 3) {
+				names.push((*sname).to_string());
+			}
+		}
+		// the further names of a scope may themselves repeat names of outer scopes
+		for _ in 0..rng.below(3) {
+			let f = fresh.next().expect("cycle").to_string();
+			if !names.contains(&f) {
+				names.push(f);
+			}
+		}
+		shuffle(rng, &mut names);
+		match if li == 0 { 0 } else { rng.below(6) } {
+			1 => {
+				text.push_str(&format!("(function({}) ", names.join(", ")));
+				closers = format!(")({}){closers}", names.iter().map(|_| "0").collect::<Vec<_>>().join(", "));
+			}
+			2 => {
+				text.push_str(&format!(
+					"{{ {}, x: ",
+					names.iter().map(|n| format!("local {n} = 1")).collect::<Vec<_>>().join(", ")
+				));
+				closers = format!(" }}.x{closers}");
+			}
+			3 => {
+				text.push('[');
+				closers = format!("{}][0]{closers}", names.iter().map(|n| format!(" for {n} in [1]")).collect::<String>());
+			}
+			4 => {
+				text.push_str(&format!(
+					"local f({}) = ",
+					names.iter().map(|n| format!("{n} = 1")).collect::<Vec<_>>().join(", ")
+				));
+				closers = format!("; f(){closers}");
+			}
+			_ => {
+				text.push_str(&format!(
+					"local {}; ",
+					names.iter().map(|n| format!("{n} = 1")).collect::<Vec<_>>().join(", ")
+				));
+			}
+		}
+	}
+	let body = match rng.below(5) {
+		0 => format!("{{ x: {target} }}.x"),
+		1 => format!("[{target}][0]"),
+		2 => format!("std.length([{target}, 1]) + {target}"),
+		_ => target,
+	};
+	format!("{text}{body}{closers}")
+}
+
+fn gen_hashmsg(rng: &mut Rng) -> Prog {
+	match rng.below(20) {
+		0..=7 => Prog { class: "msg-shadow-local", text: gen_shadow_scopes(rng) },
+		8..=10 => {
+			// unknown field of an object assembled from layers that repeat names
+			let fam: &[&str] = if rng.chance(1, 6) { UFAMS[rng.below(UFAMS.len())] } else { FAMS[rng.below(FAMS.len())] };
+			let k = near_miss(rng, fam);
+			let o1 = obj_src(&gen_obj_fam(rng, fam, 2, 0, false));
+			let o2 = obj_src(&Obj::Lit(gen_lit(rng, fam, 0, false)));
+			let text = match rng.below(6) {
+				0 => format!("({o1} + {o2})['{k}']"),
+				1 => format!("({o1} + {{ r: self['{k}'] }}).r"),
+				2 => format!("({o1} + {{ r: super['{k}'] }}).r"),
+				3 => format!("{{ a: {o1}, r: $.a['{k}'] }}.r"),
+				4 => format!("local o = {o1} + {o2}; {{ [n]: o[n] for n in std.objectFieldsAll(o) }}['{k}']"),
+				_ => format!("std.get({o1}, '{k}', error 'none') + ({o2})['{k}']"),
+			};
+			Prog { class: "msg-field", text }
+		}
+		11 | 12 => {
+			let name = *rng.pick(STD_NAMES);
+			let m = misspell(rng, name);
+			let text = if rng.chance(1, 3) { format!("std['{m}']") } else { format!("std.{m}") };
+			Prog { class: "msg-std", text }
+		}
+		13..=15 => {
+			// calls that name a parameter wrongly / twice / not at all: the message lists the signature
+			let fam = FAMS[rng.below(FAMS.len())];
+			let mut pool: Vec<&str> = fam.to_vec();
+			shuffle(rng, &mut pool);
+			let np = 2 + rng.below(3);
+			let params: Vec<&str> = pool[..np.min(pool.len() - 1)].to_vec();
+			let sig = params
+				.iter()
+				.enumerate()
+				.map(|(i, p)| if i + 1 == params.len() && rng.chance(1, 2) { format!("{p} = 0") } else { (*p).to_string() })
+				.collect::<Vec<_>>()
+				.join(", ");
+			let miss = near_miss(rng, fam);
+			let call = match rng.below(6) {
+				0 => format!("f({miss} = 1)"),
+				1 => format!("f(1, {} = 2)", params[0]),
+				2 => format!("f({} = 1)", params[params.len() - 1]),
+				3 => format!("f({})", (0..params.len() + 1).map(|i| i.to_string()).collect::<Vec<_>>().join(", ")),
+				4 => format!("f({}, {miss} = 0)", params.iter().rev().map(|p| format!("{p} = 1")).collect::<Vec<_>>().join(", ")),
+				_ => "f()".to_string(),
+			};
+			let text = match rng.below(4) {
+				0 => format!("local o = {{ f({sig}): 0 }}; o.{}", call),
+				1 => {
+					let b = *rng.pick(&[
+						"std.substr(str = 'a')",
+						"std.substr('abc', len = 1)",
+						"std.substr('abc', 1, 2, 3)",
+						"std.substr('abc', 1, form = 2)",
+						"std.join(sep = ',')",
+						"std.foldl(function(a, b) a, [1], ini = 0)",
+						"std.objectHas({}, f = 'a', o = {})",
+						"std.manifestJsonEx({}, indent = ' ', newlin = '')",
+					]);
+					b.to_string()
+				}
+				_ => format!("local f({sig}) = 0; {call}"),
+			};
+			Prog { class: "msg-args", text }
+		}
+		_ => {
+			// messages that print a listing of an object's names
+			let o = obj_src(&gen_obj(rng, 3, 0, false));
+			let text = match rng.below(9) {
+				0 => format!("error std.toString(std.objectFields({o}))"),
+				1 => format!("assert false : std.toString(std.objectFieldsAll({o})); 0"),
+				2 => format!("error 'fields: ' + std.join(',', std.objectFieldsAll({o}))"),
+				3 => format!("error std.manifestJsonMinified({o})"),
+				4 => format!("std.assertEqual({o}, {{ never: 1 }})"),
+				5 => format!("std.mapWithKey(function(k, v) error k, {o})"),
+				6 => format!("[error k for k in std.objectFieldsAll({o})]"),
+				7 => format!("local o = {o}; {{ assert false : std.toString(o), a: 1 }}.a"),
+				_ => format!("{o} + 1"),
+			};
+			Prog { class: "msg-listing", text }
+		}
+	}
+}
+
 fn gen_error(rng: &mut Rng) -> Prog {
-	match rng.below(10) {
+	match rng.below(13) {
+		10..=12 => gen_hashmsg(rng),
 		0 | 1 => {
 			// did-you-mean on fields
 			let fam: &[&str] = if rng.chance(1, 5) { UFAMS[rng.below(UFAMS.len())] } else { FAMS[rng.below(FAMS.len())] };
@@ -617,15 +837,50 @@ fn run_hist(opts: &Opts, w: &mut CaseWriter, lib: &Path, meta: &mut BTreeMap<Str
 		(Prog { class: "assert", text: "(import 'lib_assert.libsonnet').b".into() }, vec!["(import 'lib_assert.libsonnet').a".into()]),
 	];
 	let nfixed = fixed.len();
-	for ci in 0..n + nfixed {
-		let (p, forced_hist) = if ci < nfixed { (fixed[ci].0.clone(), Some(fixed[ci].1.clone())) } else { (gen_prog(&mut rng), None) };
+	// error texts assembled from hash-map iteration: more interning histories per program
+	let nmsg = if opts.thorough() { 600 } else { 120 };
+	for ci in 0..n + nfixed + nmsg {
+		let msg = ci >= n + nfixed;
+		let (p, forced_hist) = if ci < nfixed {
+			(fixed[ci].0.clone(), Some(fixed[ci].1.clone()))
+		} else if msg {
+			(gen_hashmsg(&mut rng), None)
+		} else {
+			(gen_prog(&mut rng), None)
+		};
 		*meta.entry(format!("hist:{}", p.class)).or_default() += 1;
 		let mut variants = vec![Variant { worker: false, pool: vec![], hist: vec![], gc: false, twice: false }];
-		for _ in 0..3 {
+		for _ in 0..if msg { 8 } else { 3 } {
 			variants.push(gen_variant(&mut rng, &p, false));
 		}
-		for _ in 0..2 {
+		for _ in 0..if msg { 4 } else { 2 } {
 			variants.push(gen_variant(&mut rng, &p, true));
+		}
+		if msg {
+			// the names of the program interned in every rotation / reversed before it runs, and
+			// programs binding the same names in another order evaluated before it
+			let ids = idents_of(&p.text);
+			for (vi, v) in variants.iter_mut().enumerate().skip(1) {
+				let mut pool = ids.clone();
+				if vi % 2 == 0 {
+					pool.reverse();
+				}
+				let k = vi % pool.len().max(1);
+				pool.rotate_left(k);
+				if vi % 3 == 0 {
+					// holes between the names
+					pool = pool.into_iter().flat_map(|x| [format!("gap_{x}_{vi}"), x]).collect();
+				}
+				if vi >= 5 {
+					v.pool = pool.clone();
+				}
+				if vi % 4 == 1 {
+					let binds: Vec<String> = pool.iter().filter(|x| x.is_ascii() && !matches!(x.as_str(), "local" | "function" | "for" | "in" | "if" | "then" | "else" | "error" | "assert" | "self" | "super" | "std" | "true" | "false" | "null")).map(|x| format!("{x} = '{x}'")).collect();
+					if !binds.is_empty() {
+						v.hist.insert(0, format!("local {}; 0", binds.join(", ")));
+					}
+				}
+			}
 		}
 		if let Some(h) = forced_hist {
 			variants[1].hist = h.clone();
@@ -990,6 +1245,17 @@ fn run_cli(opts: &Opts) {
 			jobs.push((gen_prog(&mut rng), vec![]));
 		}
 	}
+	// error texts assembled from hash-map iteration: RUNS_MSG fresh processes each, so that a text
+	// that differs in 30% of the address-space layouts shows with probability 1 - 0.7^14 - 0.3^14 > 0.99
+	// per affected program
+	const RUNS_MSG: usize = 14;
+	let nmsg = if opts.thorough() { 320 } else { 56 };
+	let nplain = jobs.len();
+	jobs.push((Prog { class: "msg-shadow-local", text: "local abc1 = 1, abc3 = 3; local abc1 = 2, abc4 = 4; { x: abc2 }.x".into() }, vec![]));
+	while jobs.len() < nplain + nmsg {
+		jobs.push((gen_hashmsg(&mut rng), vec![]));
+	}
+	let runs_of = |i: usize| if i < nplain { RUNS } else { RUNS_MSG };
 	let results: Vec<Vec<String>> = thread::scope(|sc| {
 		let nthreads = 6;
 		let chunks: Vec<Vec<usize>> = (0..nthreads).map(|t| (0..jobs.len()).filter(|i| i % nthreads == t).collect()).collect();
@@ -1003,7 +1269,7 @@ fn run_cli(opts: &Opts) {
 							let mut args = jobs[i].1.clone();
 							args.push("-e".into());
 							args.push(jobs[i].0.text.clone());
-							(i, (0..RUNS).map(|_| cli_once(bin, lib, &args)).collect::<Vec<_>>())
+							(i, (0..runs_of(i)).map(|_| cli_once(bin, lib, &args)).collect::<Vec<_>>())
 						})
 						.collect::<Vec<_>>()
 				})
@@ -1019,13 +1285,13 @@ fn run_cli(opts: &Opts) {
 		*meta.entry(format!("cli-outcome:{oc}")).or_default() += 1;
 		w.case(
 			json!({"op":"det.repeat","class":p.class,"prog":p.text,"args":args,"outs":outs,"size":p.text.len()}),
-			json!({"_n": RUNS}),
+			json!({"_n": outs.len()}),
 		);
 	}
 	let n = w.n;
 	w.finish(
-		json!({"engine":"c16cli","cases":n,"runs_per_program":RUNS,"hist":meta,
-		       "rule":"generated programs (field listings, values, errors, did-you-mean, multi-error, stack-limited, imports, top-level-argument errors) + the witnesses of the repaired defects, each run 8x as a fresh jrsonnet process (ASLR on): exit status, stdout and stderr byte-identical"}),
+		json!({"engine":"c16cli","cases":n,"runs_per_program":RUNS,"runs_per_message_program":RUNS_MSG,"message_programs":nmsg,"hist":meta,
+		       "rule":"generated programs (field listings, values, errors, did-you-mean, multi-error, stack-limited, imports, top-level-argument errors) + the witnesses of the repaired defects, each run 8x as a fresh jrsonnet process (ASLR on): exit status, stdout and stderr byte-identical; error texts assembled from hash-map iteration (undefined local below 2-4 local/function/object-local/comprehension scopes with shadowed names, unknown field of layered objects through ./self/super/$, misspelt std functions, unknown/duplicate/missing/surplus arguments of user functions, methods and builtins, field listings inside error/assert messages) 14x each"}),
 		&opts.out,
 	);
 }
